@@ -42,11 +42,35 @@ func genEditCase(t *rapid.T) editCase {
 			}
 		}
 	}
+	huge := rare(t, "huge", 14)
+	if huge {
+		// hundreds of vertices (row and label indices past 255, 362, 511): sparse random edges plus a few dense rows
+		n := rapid.IntRange(257, sz(560, 1100)).Draw(t, "hn")
+		maxN = n + 4
+		g = oracle.New(n)
+		for k := rapid.IntRange(n, 3*n).Draw(t, "hm"); k > 0; k-- {
+			a, b := rapid.IntRange(0, n-1).Draw(t, "ha"), rapid.IntRange(0, n-1).Draw(t, "hb")
+			if a != b {
+				g.Add(a, b)
+			}
+		}
+		for k := 0; k < 3; k++ {
+			v := rapid.IntRange(0, n-1).Draw(t, "hub")
+			for u := 0; u < n; u++ {
+				if u != v && rapid.IntRange(0, 3).Draw(t, "hubedge") == 0 {
+					g.Add(u, v)
+				}
+			}
+		}
+	}
 	c := editCase{Init: specOf(g), Built: rapid.SampledFrom(buildWays).Draw(t, "built"), Spare: rapid.SampledFrom([]int{0, 0, 3, 40}).Draw(t, "spare")}
 	sizes := []int{g.N}
 	nops := rapid.IntRange(1, sz(30, 120)).Draw(t, "nops")
 	if g.N > 9 {
 		nops = rapid.IntRange(1, sz(14, 40)).Draw(t, "nopsl")
+	}
+	if huge {
+		nops = rapid.IntRange(1, 8).Draw(t, "nopsh")
 	}
 	for k := 0; k < nops; k++ {
 		slot := rapid.IntRange(0, len(sizes)-1).Draw(t, "slot")
@@ -55,7 +79,7 @@ func genEditCase(t *rapid.T) editCase {
 		if n >= 1 {
 			kinds = append(kinds, "removevertex", "removevertex")
 		}
-		if len(sizes) < 6 {
+		if len(sizes) < 6 && !(huge && len(sizes) >= 2) {
 			kinds = append(kinds, "copy", "induced")
 		}
 		if n == 0 {
